@@ -226,6 +226,15 @@ func (c *curvePoint) Double(a *curvePoint, pool *bnPool) {
 }
 
 func (c *curvePoint) Mul(a *curvePoint, scalar *big.Int, pool *bnPool) *curvePoint {
+	if scalar.Sign() < 0 {
+		// Bit reports two's-complement bits for negative values: use (-k)a = -(ka).
+		t := newCurvePoint(pool)
+		t.Mul(a, new(big.Int).Neg(scalar), pool)
+		c.Negative(t)
+		t.Put(pool)
+		return c
+	}
+
 	sum := newCurvePoint(pool)
 	sum.SetInfinity()
 	t := newCurvePoint(pool)
@@ -283,5 +292,5 @@ func (c *curvePoint) Negative(a *curvePoint) {
 	c.x.Set(a.x)
 	c.y.Neg(a.y)
 	c.z.Set(a.z)
-	c.t.SetInt64(0)
+	c.t.Set(a.t)
 }
